@@ -212,6 +212,8 @@ def run(rep: Report, repo: Repo):
     mirror(rep, mod, fns)
     predicates(rep, mod, fns)
     levels(rep, mod, fns['Circuit.topological_order_with_level'])
+    if getattr(rep, '_c17_order_only', False):
+        return      # included by a simulation check: only the rules about the order the op list is built from
     lines_and_fanin(rep, mod, fns)
     locs(rep, mod)
 
@@ -541,9 +543,11 @@ def order_rules(rep, repo):
     """All C17 rules, for checks of properties that quantify over circuits and consume the topological order (the op list is built
     from it): evaluated with the caller's report, rule ids keep their C17. prefix."""
     keep = (rep.explanation, rep.trusted, rep.assumptions, rep.exhaustive)
+    rep._c17_order_only = True
     try:
         run(rep, repo)
     finally:
+        rep._c17_order_only = False
         rep.explanation, rep.trusted, rep.assumptions, rep.exhaustive = keep
 
 
